@@ -39,9 +39,9 @@ VARIABLES top,        \* where the expression is stored: "value" | "annotation"
           P0,         \* parse_strings given to get_expression (annotation and no `from __future__ import annotations`)
           chain,      \* <<[s |-> shape, k |-> slot number]...>> ending in a leaf shape with k = 0
           tree,       \* the ast node of the case
-          pc, built, impl, layer, ref, bad, strs, srcnames
+          pc, built, impl, layer, ref, bad, srcnames
 casevars == <<top, P0, chain, tree>>
-vars == <<casevars, pc, built, impl, layer, ref, bad, strs, srcnames>>
+vars == <<casevars, pc, built, impl, layer, ref, bad, srcnames>>
 
 \* ---- ast nodes ---------------------------------------------------------------------------------
 N(t, op, kids) == [t |-> t, op |-> op, kids |-> kids, ps |-> <<>>]
@@ -553,7 +553,7 @@ Walk(n, e, req, pt, pos, cx) ==     \* set of defect records at and below n; (pt
             ELSE {})
         ELSE IF NeedsParens(req, n) /\ ~Grouped(e)
         THEN {Rec("grouping",
-                  CASE n.t = "Tuple" -> IF Len(n.kids) = 0 /\ req.tuple THEN "empty-slice-tuple" ELSE "in_subscript-leak"
+                  CASE n.t = "Tuple" -> IF Len(n.kids) = 0 /\ req.sub THEN "empty-slice-tuple" ELSE "in_subscript-leak"
                     [] n.t \in {"Yield", "YieldFrom"} -> "bare-yield"
                     [] n.t = "GeneratorExp" -> "bare-genexp"
                     [] n.t = "Const" -> "int-attribute"
@@ -681,7 +681,7 @@ Init ==
   /\ P0 => top = "annotation"                       \* values, defaults, decorators, bases: parse_strings=False
   /\ IF Family = "lambda" THEN chain = <<>> /\ ~P0 /\ top = "value" ELSE IsChain(chain)
   /\ tree = <<>> /\ pc = "source"
-  /\ built = <<>> /\ impl = <<>> /\ layer = <<>> /\ ref = <<>> /\ bad = {} /\ strs = <<>> /\ srcnames = <<>>
+  /\ built = <<>> /\ impl = <<>> /\ layer = <<>> /\ ref = <<>> /\ bad = {} /\ srcnames = <<>>
 
 AstParse ==            \* the source is parsed: the ast node of the case (cases outside the configured domain stop here)
   /\ pc = "source"
@@ -690,7 +690,7 @@ AstParse ==            \* the source is parsed: the ast node of the case (cases 
         /\ pc' = IF \/ (Family # "lambda" /\ top = "annotation" /\ ~HasStr(t) /\ Len(chain) > 1)   \* identical to the "value" case
                      \/ (P0 /\ ~HasStr(t))
                   THEN "skip" ELSE "case"
-  /\ UNCHANGED <<top, P0, chain, built, impl, layer, ref, bad, strs, srcnames>>
+  /\ UNCHANGED <<top, P0, chain, built, impl, layer, ref, bad, srcnames>>
 
 InDomain == Domain = "all" \/ (Domain = "clean" /\ Clean) \/ (Domain = "defect" /\ ~Clean)
 
@@ -698,14 +698,14 @@ GetExpression ==       \* get_expression(node, parent, parse_strings=P0) -> _bui
   /\ pc = "case" /\ InDomain
   /\ built' = Build(tree, Env(P0, FALSE, FALSE, FALSE, FALSE))
   /\ pc' = "built"
-  /\ UNCHANGED <<casevars, impl, layer, ref, bad, strs, srcnames>>
+  /\ UNCHANGED <<casevars, impl, layer, ref, bad, srcnames>>
 
 IterateExpr ==         \* list(expr.iterate(flat=True)) (= the pieces of str(expr)) and list(expr.iterate(flat=False))
   /\ pc = "built"
   /\ impl' = Iterate(built, TRUE)
   /\ layer' = Iterate(built, FALSE)
   /\ pc' = "iterated"
-  /\ UNCHANGED <<casevars, built, ref, bad, strs, srcnames>>
+  /\ UNCHANGED <<casevars, built, ref, bad, srcnames>>
 
 Sel(items, kind) == SelectSeq(items, LAMBDA x : x[1] = kind)
 NameTokens(items) == [i \in 1..Len(Sel(items, "n")) |-> Sel(items, "n")[i][2]]
@@ -719,7 +719,7 @@ Judge ==
             \cup (IF NameTokens(impl) # NamesOf(tree, built)
                   THEN {Rec("names", IF HasSpec(tree) THEN "fstring-format-spec-dropped" ELSE "unexplained", [TopPt EXCEPT !.t = "FormattedValue"], "", "", "")} ELSE {})
   /\ pc' = "done"
-  /\ UNCHANGED <<casevars, built, impl, layer, strs>>
+  /\ UNCHANGED <<casevars, built, impl, layer>>
 
 Next == AstParse \/ GetExpression \/ IterateExpr \/ Judge
 Spec == Init /\ [][Next]_vars
